@@ -6,7 +6,8 @@ package server
 // arrival order) against fakes of udpIO / UDPConn. The hook only inspects (or rewrites the
 // address, or refuses): the bytes written to the outbound conn must equal the client's datagram,
 // go to the address the hook left in *reqAddr, and the hook must see exactly the datagram.
-// The TCP call site (handleTCPRequest) needs a *quic.Stream and is not driven here.
+// The TCP call site (handleTCPRequest) needs a *quic.Stream and is not driven here: it is driven
+// over the fake QUIC layer in c17_replay_test.go (unit server-tcp-replay).
 
 import (
 	"bytes"
